@@ -61,6 +61,11 @@ FS == (<<"W">> :> Dir) @@
       (<<"W", "root2", "c.lisp">> :> File("out-c")) @@
       (<<"W", "out">> :> Dir) @@
       (<<"W", "out", "secret.lisp">> :> File("out-secret")) @@
+      \* decoys: files OUTSIDE the root that carry the names of files inside it, where an un-cleaned path would land
+      \* (root/ld_out/../a.lisp is root/a.lisp lexically, W/a.lisp for the kernel)
+      (<<"W", "a.lisp">> :> File("out-wa")) @@
+      (<<"W", "out", "a.lisp">> :> File("out-oa")) @@
+      (<<"W", "out", "b.lisp">> :> File("out-ob")) @@
       (<<"W", "out", "back">> :> LinkAbs(<<"W", "root">>)) @@
       (<<"W", "rootlink">> :> LinkRel(<<"root">>))
 
